@@ -103,6 +103,7 @@ type wWorld struct {
 	order     []NodeID // deterministic iteration order
 	byID      map[hotstuff.ID][]*wNode
 	leaders   wLeaders
+	timer     time.Duration
 	pending   []wMsg
 	signLog   []wSignRec
 	partition map[NodeID]int // partition block of each node; equal = connected
@@ -303,6 +304,7 @@ type wSpec struct {
 	fetchFail float64
 	sendFail  float64
 	crypto    string // signature scheme: ecdsa (default), eddsa, bls12
+	timer     time.Duration // view timer of the real synchronizer (default one hour: the scripts fire TimeoutEvents themselves)
 }
 
 func newWorld(spec wSpec) (*wWorld, error) {
@@ -313,6 +315,10 @@ func newWorld(spec wSpec) (*wWorld, error) {
 		dropProb: spec.dropProb, dupProb: spec.dupProb, withhold: spec.withhold,
 		aggOf: map[hotstuff.Hash]*hotstuff.AggregateQC{}, timeoutIdx: map[string]wTimeoutInfo{},
 		timeoutsSeen: map[hotstuff.View][]hotstuff.TimeoutMsg{}, crashed: map[NodeID]bool{}, fetchFail: spec.fetchFail, sendFail: spec.sendFail,
+	}
+	w.timer = spec.timer
+	if w.timer == 0 {
+		w.timer = time.Hour
 	}
 	w.regBlock(hotstuff.GetGenesis())
 	isIn := func(l []hotstuff.ID, x hotstuff.ID) bool {
@@ -406,7 +412,7 @@ func (w *wWorld) newNode(nid NodeID, pk hotstuff.PrivateKey, scheme string, byz,
 	nd.voter = consensus.NewVoter(nd.config, w.leaders, rules, cl, nd.auth, committer)
 	nd.proposer = consensus.NewProposer(nd.eventLoop, nd.config, nd.blockchain, nd.viewStates, rules, cl, nd.voter, nd.cmdCache, committer)
 	nd.sync = synchronizer.New(nd.eventLoop, logger, nd.config, nd.auth, w.leaders,
-		synchronizer.NewFixedDuration(time.Hour), synchronizer.NewTimeoutRuler(nd.config, nd.auth),
+		synchronizer.NewFixedDuration(w.timer), synchronizer.NewTimeoutRuler(nd.config, nd.auth),
 		nd.proposer, nd.voter, nd.viewStates, sender)
 	// observed synchronously: a catch-up commit of several hundred blocks adds 3 events per block and the
 	// bounded queue (legitimately, C14) drops the oldest pending ones, which would hide CommitEvents from the observer
